@@ -9,6 +9,7 @@ INPKG = {
     "cmd/glyph": {"dir": "cmdglyph"},
     "pkg/server": {"dir": "server", "clock_subst": ["middleware.go"]},
     "pkg/database": {"dir": "database"},
+    "pkg/hotreload": {"dir": "hotreload"},
 }
 
 HOOK_COMMITS = []   # no guarded source change is committed in /repo; overlays only
@@ -232,6 +233,21 @@ CHECKS = {
             {"name": "c18-idem", "bin": "c18", "build": "harness:c18", "run": "^TestC18Idem$", "quick": 60000, "thorough": 3000000},
             {"name": "c18-fmt", "bin": "c18", "build": "harness:c18", "run": "^TestC18Fmt$", "quick": 20000, "thorough": 1000000},
             {"name": "c18-expand", "bin": "c18", "build": "harness:c18", "run": "^TestC18Expand$", "quick": 20000, "thorough": 1000000},
+        ],
+    },
+    "C19": {
+        "level": "fault_enumeration",
+        "manifest": {
+            "technique": "fault-sequence enumeration (complete up to length 2, length 3 in the thorough tier) and property-based generation (rapid) of longer edit sequences, through the real hotReloadManager on a listening socket and through the library ReloadManager with a real compiler and a model server",
+            "level_text": "The watched file starts as a valid version 0 served by a real hotReloadManager on a free port; each edit writes a valid version k, a lexer error, a parser error, a semantic compile error, an empty file or deletes the file, then calls reload() (what the watcher's debounce timer calls) and issues an HTTP GET on the port. After every edit the server must answer (the port is never left unbound) with the most recent version that loaded successfully, and a valid edit must take effect at once; after an empty save either the previous version or the empty module (404) is accepted. Library level: ReloadManager.handleChanges with a parse+compile CompilerInterface and a model server that serves by executing the last bytecode it received, plus injected Reload failures: served version, exactly one ReloadEvent per change with Success iff the edit was valid, application state preserved.",
+            "level_note": "reload() is called directly rather than through fsnotify (event delivery is the OS's, debounce is a timer). 'Unreadable' is modelled by deleting the file because the sandbox runs as root, for whom mode 000 is readable. Whether an empty file counts as a successful load is not fixed by the property, so both readings are accepted.",
+        },
+        "rule": ("enumerated edit sequences over six edit kinds (length <= 2 quick, <= 3 thorough) and rapid-generated ones up to length 6 (dev server) / 10 (library); non-trivial = the sequence contains a failing edit followed by a request; distinct = hash of the sequence"),
+        "assumptions": ["a free port is picked by binding :0 and closing it again; every worker uses its own port"],
+        "units": [
+            {"name": "c19-small", "bin": "cmdglyph", "build": "inpkg:cmd/glyph", "run": "^TestC19Small$", "enumerate": True, "shards": 14, "gomaxprocs": 4},
+            {"name": "c19-dev", "bin": "cmdglyph", "build": "inpkg:cmd/glyph", "run": "^TestC19Dev$", "quick": 140, "thorough": 4000, "gomaxprocs": 4, "min_per_shard": 1},
+            {"name": "c19-lib", "bin": "hotreload", "build": "inpkg:pkg/hotreload", "run": "^TestC19Lib$", "quick": 20000, "thorough": 500000},
         ],
     },
     "C20": {
